@@ -24,8 +24,8 @@ def scenarios(ck, which):
         ck.violation("spec:Pipeline:" + str(r.violation), "pipeline model invariant violated", {"tlc": r.out[-2000:]})
     scs = json_prints(r, "pipeline")
     if which == "C01":
-        return [s for s in scs if s["tamper"] == "none" and s["opts"] != "weak"]
-    return [s for s in scs if s["tamper"] != "none" or s["opts"] == "weak"]
+        return [s for s in scs if s["tamper"] == "none" and s["expect"] == "accept"]
+    return [s for s in scs if s["tamper"] != "none" or s["expect"] != "accept"]
 
 
 def run_pipeline(ck, pid, tier, replay):
@@ -35,18 +35,20 @@ def run_pipeline(ck, pid, tier, replay):
     # group model scenarios by (opts, via_bytes): one proof, many tampers
     groups = {}
     for s in scs:
-        groups.setdefault((s["opts"], s["via_bytes"]), []).append(s)
+        groups.setdefault((s["opts"], s["hash"], s["via_bytes"]), []).append(s)
     if pid == "C01":
         nprog = 40 if thorough else 6
         progs = progen.corpus(seed() + 11, nprog, nstmts=12 if thorough else 8) + [DEEP, KERN]
     else:
         progs = [DEEP, KERN] + progen.corpus(seed() + 13, 6 if thorough else 1, classes=["mixed", "mem"], nstmts=8)
     recs, meta = [], []
-    for (opts, via), ss in sorted(groups.items()):
-        for p in progs:
+    std = {"regular96": "blake3_192", "regular128": "blake3_256", "recursive96": "rpo256", "recursive128": "rpo256"}
+    for (opts, htag, via), ss in sorted(groups.items()):
+        # pairings of parameter set and hash function outside the documented ones: two programs are enough
+        for p in (progs if std.get(opts) == htag else progs[:2]):
             recs.append({"src": p["src"], "kernel": p.get("kernel"), "inputs": [limbs(x) for x in p["inputs"]], "adv": [],
-                         "opts": opts, "via_bytes": via, "tampers": sorted({s["tamper"] for s in ss})})
-            meta.append((opts, via, p, {s["tamper"]: s for s in ss}))
+                         "opts": opts, "hash": htag, "via_bytes": via, "tampers": sorted({s["tamper"] for s in ss})})
+            meta.append((opts + "/" + htag, via, p, {s["tamper"]: s for s in ss}))
     inp = os.path.join(wd, "pipeline_scenarios.ndjson")
     with open(inp, "w") as f:
         for r_ in recs:
@@ -77,7 +79,7 @@ def run_pipeline(ck, pid, tier, replay):
             rep = {"kind": "pipeline", "profile": prof, "program": p, "opts": opts, "via_bytes": via}
             base_sig = "%s:%s:bytes=%s:%s" % (opts, p["class"], via, prof)
             if res["outcome"] != "ok":
-                if opts != "weak":
+                if not opts.startswith(("weak", "q26", "g15", "b4")):
                     ck.violation("prove:" + base_sig, "proving a successful execution failed: %s" % str(res)[:300], rep)
                 continue
             for tv in res["tampers"]:
